@@ -905,6 +905,24 @@ let outb_to_N = function
 let run_match m fixed badl mb a b =
   outb_to_N (match_scope m fixed (split_tbl badl) mb a b)
 
+(** val run_filter :
+    mconsts -> bool -> bytes list -> service list -> qname list option ->
+    scopes_filter option -> (n list * n) list * bytes list option **)
+
+let run_filter m fixed badl svs types scopes =
+  let split = split_tbl badl in
+  ((map (fun sv ->
+     ((match scopes with
+       | Some s ->
+         let (mb, uris) = s in
+         map (fun u ->
+           outb_to_N (scope_in_list m fixed split mb u sv.s_scopes)) uris
+       | None -> []),
+     (outb_to_N (matches_filter m fixed split sv types scopes)))) svs),
+  (match filter_services m fixed split svs types scopes with
+   | Ret l -> Some (map (fun s -> s.s_epr) l)
+   | Raise -> None))
+
 type known = z list
 
 (** val remember : nat -> known -> z -> known **)
@@ -966,9 +984,19 @@ let add_remote t s =
           else if Z.ltb k.s_mdv s.s_mdv then t_set s.s_epr s t else t
         | None -> t_set s.s_epr s t)
 
+type bye_extra = { bx_appseq : z option; bx_mdv : z option;
+                   bx_types : qname list; bx_scopes : bytes list option;
+                   bx_xaddrs : bytes list }
+
+(** val bx_plain : z -> bye_extra **)
+
+let bx_plain iid =
+  { bx_appseq = (Some iid); bx_mdv = None; bx_types = []; bx_scopes = None;
+    bx_xaddrs = [] }
+
 type msg =
 | MHello of z option * service
-| MBye of bytes
+| MBye of bytes * bye_extra
 | MProbe of qname list option * scopes_filter option
 | MProbeMatches of z option * service list
 | MResolve of bytes
@@ -1030,7 +1058,7 @@ let handle m fixed split d = function
         | [] -> (OResolve s.s_epr) :: []
         | _ :: _ -> []))
    | None -> (d, []))
-| MBye epr -> ({ remote = (t_del epr d.remote); local = d.local }, [])
+| MBye (epr, _) -> ({ remote = (t_del epr d.remote); local = d.local }, [])
 | MProbe (types, scopes) ->
   (match filter_services m fixed split (t_values d.local) types scopes with
    | Ret l -> (d, (map (fun x -> OProbeMatch x) l))
@@ -1062,7 +1090,7 @@ type node = { disc : dstate; kn_ids : z list; sent : out list }
 
 let msg_of_out = function
 | OHello s -> MHello ((Some s.s_iid), s)
-| OBye s -> MBye s.s_epr
+| OBye s -> MBye (s.s_epr, (bx_plain s.s_iid))
 | OProbeMatch s -> MProbeMatches ((Some s.s_iid), (s :: []))
 | OResolveMatch s -> MResolveMatches ((Some s.s_iid), (Some s))
 | OResolve epr -> MResolve epr
